@@ -119,13 +119,14 @@ taskreport {report_id} "{report_id}" {{
 }}
 """
 
+    # Read original file first: if it cannot be read (e.g. not valid text) no
+    # temporary file must be left behind
+    with open(tjp_path) as f:
+        original_content = f.read()
+
     # Create temporary file with random suffix (safe for concurrent execution)
     temp_fd, temp_path = tempfile.mkstemp(suffix=".tjp", prefix="plan_auto_")
     temp_file = Path(temp_path)
-
-    # Read original file
-    with open(tjp_path) as f:
-        original_content = f.read()
 
     # Write combined content and close file descriptor
     with os.fdopen(temp_fd, "w") as f:
@@ -471,6 +472,16 @@ def report(ctx: click.Context, tjp_file: Optional[str], output_csv: bool, output
             shutil.rmtree(temp_output_dir)
 
         sys.exit(2)
+
+    finally:
+        # Whatever way out was taken - including a sys.exit() from inside the engine,
+        # which none of the handlers above sees - nothing is left behind
+        if temp_file and temp_file.exists():
+            temp_file.unlink()
+        if stdin_temp_file and stdin_temp_file.exists():
+            stdin_temp_file.unlink()
+        if temp_output_dir and temp_output_dir.exists():
+            shutil.rmtree(temp_output_dir, ignore_errors=True)
 
 
 @cli.command()
